@@ -142,7 +142,7 @@ def handle1 (op : String) (args : List String) : Option String :=
   | "c19.reply", [m, r] => some <| match parseReply? r with
       | some r => showOutcome (methodOutcome m r)
       | none => badArgs
-  | "c19.ids", [toks] => some <| match (splitList toks ',').mapM parseReq? with
+  | "c19.ids", [toks] => some <| match ((splitList toks ',').filter (· ≠ "close")).mapM parseReq? with
       | some reqs => joinWith "," ((idsSent PState.init reqs).map toString)
       | none => badArgs
   | _, _ => none
@@ -155,6 +155,9 @@ def fateOk : Fate := .replied (.obj .null (some "x"))
 /-- one step of a history: its (stateless) answer and the `_call`s it makes on its proxy -/
 def seqStep (fields : List String) : Option (String × Nat × List Req) :=
   match fields with
+  | [p, "close"] => do
+      let p ← parseNat? p
+      pure ("-", p, [])                       -- `close()` sends nothing and leaves the counter alone
   | [p, "in", m, text] => do
       let p ← parseNat? p
       let o ← handle1 "c19.amountIn" [m, text]
